@@ -186,29 +186,15 @@ fn c09_o2_is_reusable() {
 // C01-O6: what reading an interned value records in the reader
 // ---------------------------------------------------------------------------------------------
 
-// @verif prop=C01,C09 obl=O6 tier=quick bounds="non-reusable case (every durability > LOW, or IMMORTAL type with any durability); symbolic current revision < 2^40; reader's prior stamp arbitrary via one prior revision-only read"
-// @+ encodes="report_tracked_read_if_reusable::<VInt<3>>, report_tracked_read_if_reusable::<VInt<{usize::MAX}>>, is_reusable, ZalsaLocal::report_tracked_read_revision, ZalsaLocal::push_query, ZalsaLocal::active_query"
-/// C01-O6: reading a non-reusable interned value still raises the reader's changed_at to the current revision
-/// (its id may be the product of an earlier reuse) and does not lower the reader's durability.
-#[kani::proof]
-#[kani::unwind(4)]
-#[kani::stub(real_catch_unwind, stub_catch_unwind)]
-fn c01_o6_interned_read_non_reusable() {
+fn interned_read_case<const R: usize>(d: Durability) {
     let local = ZalsaLocal::new();
-    let _guard = local.push_query(key(3, 0, 0));
+    let guard = local.push_query(key(3, 0, 0));
     let now: usize = kani::any();
     kani::assume(1 <= now && now < REV_MAX);
     let prior: usize = kani::any();
     kani::assume(1 <= prior && prior <= now);
     local.report_tracked_read_revision(Revision::from(prior));
-    let d = any_durability();
-    let immortal: bool = kani::any();
-    kani::assume(immortal || d != Durability::LOW);
-    if immortal {
-        report_tracked_read_if_reusable::<VInt<{ usize::MAX }>>(&local, key(5, 0, 0), Revision::from(now), d);
-    } else {
-        report_tracked_read_if_reusable::<VInt<3>>(&local, key(5, 0, 0), Revision::from(now), d);
-    }
+    report_tracked_read_if_reusable::<VInt<R>>(&local, key(5, 0, 0), Revision::from(now), d);
     match local.active_query() {
         Some((_, stamp)) => {
             assert!(stamp.changed_at.as_usize() == now, "C01: interned read did not raise the reader's changed_at to now");
@@ -216,10 +202,32 @@ fn c01_o6_interned_read_non_reusable() {
         }
         None => panic!(),
     }
-    kani::cover!(immortal && d == Durability::LOW);
-    kani::cover!(!immortal && prior < now);
-    std::mem::forget(_guard);
+    kani::cover!(prior < now);
+    std::mem::forget(guard);
     std::mem::forget(local);
+}
+
+// @verif prop=C01,C09 obl=O6 tier=quick bounds="type with collection disabled (revisions = usize::MAX), every durability (symbolic); symbolic current revision < 2^40 and prior reader stamp"
+// @+ encodes="report_tracked_read_if_reusable::<VInt<{usize::MAX}>>, is_reusable, ZalsaLocal::report_tracked_read_revision, ZalsaLocal::push_query, ZalsaLocal::active_query"
+/// C01-O6: reading a non-reusable interned value still raises the reader's changed_at to the current revision
+/// (its id may be the product of an earlier reuse) and does not lower the reader's durability (immortal type).
+#[kani::proof]
+#[kani::unwind(4)]
+#[kani::stub(real_catch_unwind, stub_catch_unwind)]
+fn c01_o6_interned_read_immortal() {
+    interned_read_case::<{ usize::MAX }>(any_durability());
+}
+
+// @verif prop=C01,C09 obl=O6 tier=quick bounds="collectable type (revisions = 3) with each of the durabilities MEDIUM, HIGH, NEVER_CHANGE (enumerated concretely: a symbolic durability drags the edge-recording hash set into the formula)"
+// @+ encodes="report_tracked_read_if_reusable::<VInt<3>>, is_reusable, ZalsaLocal::report_tracked_read_revision"
+/// C01-O6: the same for values of a collectable type interned under a durability above LOW.
+#[kani::proof]
+#[kani::unwind(4)]
+#[kani::stub(real_catch_unwind, stub_catch_unwind)]
+fn c01_o6_interned_read_durable() {
+    interned_read_case::<3>(Durability::MEDIUM);
+    interned_read_case::<3>(Durability::HIGH);
+    interned_read_case::<3>(Durability::NEVER_CHANGE);
 }
 
 // ---------------------------------------------------------------------------------------------
